@@ -22,6 +22,21 @@ LIFTED BY AST from the current file (vlib.h_tools.lift) and the DNS-1035 regex i
 * ob_end_to_end (Engine S): the whole lifted function on names assembled from a pool of characters (upper case,
   digits, hyphen, space, non-ASCII incl. characters whose lower() is special) — ties the pieces together
   (``lower()``, the split point) and checks the statement directly on short names.
+
+What is derived from the current AST and what is written by hand
+  from the AST (regenerated every run): every statement of find_deployment_id after the three ``re.sub`` and the whole
+  of _append_random_suffix (vlib.py2smt.Interp: assignments, ifs, the for/range loop, slices, rstrip, f-string, join,
+  isalpha/isdigit, the inlined call), max_length / randomness / to_take (plain ints of the source), the two alphabets
+  (the literals passed to random.choices / random.choice), the DNS-1035 regex (deployments.py), the sanitiser
+  statements executed by ob_sanitiser, the translation-validation inputs (the repo's test literals).
+  by hand (specification side, from the statement): the sanitiser postcondition ``_Enc.facts`` / ``_facts`` (proved by
+  ob_sanitiser on the real statements for short strings, assumed for longer ones, and re-checked against the real
+  sanitiser's output on every translation-validation literal), ``_spec_ps`` and the shapes of ob_tail_derivation
+  (63, 5 hex digits), ``_check_id`` / ``_ref_sanitised``.  Stubs: ``_Random`` / ``validate_deployment_id`` hand the
+  draws and availability answers of a model to the lifted code BY CALL ORDINAL; the encoding indexes its draw /
+  availability variables by the same ordinals (hidden path state ``__draws__`` / ``__avail__`` of the interpreter,
+  carried through inlined calls).  That correspondence is what ``translation_validation[k,r]`` checks on every run:
+  repo test literals x {no retry, forced suffix + retry, retries up to the unroll bound, forced suffix accepted}.
 """
 from __future__ import annotations
 
@@ -52,6 +67,10 @@ ASSUMES = [
     "act character-locally: per-character class map, run collapse, end trim)",
     "ob_tail_*: the retry loop `for i in range(1, 100)` is unrolled UNROLL times (2 quick / 4 thorough); every later "
     "iteration executes the same statement on the same loop-invariant base id with fresh draws",
+    "ob_tail_*: the j-th random.choices call of a path reads draw j, random.choice reads the letter of the latest draw, the "
+    "j-th validate_deployment_id call reads answer j — the same ordinals the native stubs use; the interpreter joins paths "
+    "that fall through a statement with equal ordinals by if-then-else (state merging), others stay forked; both are "
+    "validated each run against the lifted real function (translation_validation[*])",
     "composition lemma (not solver-checked): if id (minus its random suffix) is a prefix of P+s and proj(s) = proj(name.lower()), "
     "then id's [a-z0-9] projection is a prefix of the name's lowercase alphanumerics, possibly after the letter d",
     "Engine T character model: code points as integers; str.isalpha / isdigit are only encoded for ASCII (a safety "
@@ -158,8 +177,18 @@ def _facts(s: str) -> bool:
     return "--" not in s
 
 
-@obligation(quick=240, thorough=900, partitions_quick=[f"len(d) == {k}" for k in range(LMAX + 1)],
-            partitions_thorough=[f"len(d) == {k}" for k in range(LMAX + 1)],
+# partitions: by length; the longest length additionally by the position of the first character relative to the
+# classes the sanitiser distinguishes (five contiguous code-point ranges that cover every character)
+def _classes(i: int) -> List[str]:
+    return [f"d[{i}] < '0'", f"'0' <= d[{i}] <= '9'", f"'9' < d[{i}] < 'a'", f"'a' <= d[{i}] <= 'z'", f"d[{i}] > 'z'"]
+
+
+_SAN_PARTS = [f"len(d) == {k}" for k in range(LMAX)] + B(
+    [f"len(d) == {LMAX} and {c}" for c in _classes(0)],
+    [f"len(d) == {LMAX} and {c0} and {c1}" for c0 in _classes(0) for c1 in _classes(1)])
+
+
+@obligation(quick=240, thorough=900, partitions_quick=_SAN_PARTS, partitions_thorough=_SAN_PARTS,
             what="sanitiser statements (three re.sub) on ANY string d: output over [a-z0-9-], no leading/trailing/double "
                  "hyphen, same [a-z0-9] projection as d",
             bounds={"len(d)": "0..LMAX (3 quick / 4 thorough), arbitrary Unicode code points"})
@@ -178,6 +207,7 @@ def ob_sanitiser(d: str) -> bool:
 POOL = ["a", "Z", "7", "-", "é", "K", " ", "_", "İ"]   # é, KELVIN SIGN (lower() == 'k'), İ (lower() is 2 chars)
 NPOOL = B(6, 9)
 ELEN = B(3, 4)
+NPOOL_TOP = 6          # names of the maximal length ELEN use the first 6 pool characters (9**4 * 8 paths are out of budget)
 HEXD = "0123456789abcdef"
 HEX1 = "b1234"   # second draw of the end-to-end stub
 
@@ -220,16 +250,20 @@ def _check_id(name: str, force: bool, avail0: bool, hex0: str, alpha0: str, rid:
     return True
 
 
-@obligation(quick=240, thorough=900, partitions_quick=[f"n == {k}" for k in range(ELEN + 1)],
-            partitions_thorough=[f"n == {k} and i0 {c}" for k in range(ELEN + 1) for c in ("<= 2", "in (3, 4, 5)", ">= 6")],
+@obligation(quick=240, thorough=900,
+            partitions_quick=[f"n == {k}" for k in range(ELEN)] + [f"n == {ELEN} and i0 == {c}" for c in range(NPOOL_TOP)],
+            partitions_thorough=[f"n == {k}" for k in range(ELEN - 1)] + [f"n == {ELEN - 1} and i0 == {c}" for c in range(NPOOL)]
+            + [f"n == {ELEN} and i0 == {c} and i1 {d}" for c in range(NPOOL_TOP) for d in ("<= 2", ">= 3")],
             what="whole lifted find_deployment_id on names assembled from a character pool (upper case, digit, hyphen, space, "
                  "non-ASCII, special lower()): valid DNS-1035 label <= 63, derived from the lowercase alphanumerics, suffix when short",
-            bounds={"name length": "0..ELEN (3 quick / 4 thorough)", "pool": "6 quick / 9 thorough characters",
+            bounds={"name length": "0..ELEN (3 quick / 4 thorough)",
+                    "pool": "6 quick / 9 thorough characters (names of length ELEN: the first 6)",
                     "first hex draw": "digit or letter", "availability": "first check free/taken", "force_suffix": "both"})
 def ob_end_to_end(n: int, i0: int, i1: int, i2: int, i3: int, force: bool, avail0: bool, hdigit: bool) -> bool:
     """
     pre: 0 <= n <= ELEN and 0 <= i0 < NPOOL and 0 <= i1 < NPOOL and 0 <= i2 < NPOOL and 0 <= i3 < NPOOL
     pre: (n > 0 or i0 == 0) and (n > 1 or i1 == 0) and (n > 2 or i2 == 0) and (n > 3 or i3 == 0)
+    pre: n < ELEN or (i0 < NPOOL_TOP and i1 < NPOOL_TOP and i2 < NPOOL_TOP and i3 < NPOOL_TOP)
     post: _
     """
     n = cint(n, 0, ELEN)
@@ -261,9 +295,10 @@ class _Enc:
         self.force = z3.Bool("force")
         self.n = z3.Int("n")
         self.chars = [z3.Int(f"c{i}") for i in range(SMAX)]
-        arr = z3.K(z3.IntSort(), z3.IntVal(0))
-        for i, c in enumerate(self.chars):
-            arr = z3.Store(arr, i, c)
+        # s is an uninterpreted array read through ground equalities s[i] == c_i (no 80-deep store chain under the
+        # symbolic-index reads that concat produces)
+        arr = z3.Array("s", z3.IntSort(), z3.IntSort())
+        be.defs.extend(z3.Select(arr, i) == c for i, c in enumerate(self.chars))
         self.s = T.BStr(self.n, arr)
         self.subs: List[Any] = []
         self.alphabets: Dict[str, str] = {}
@@ -272,22 +307,31 @@ class _Enc:
             return z3.Or(*[c == ord(x) for x in alphabet])
 
         self.stub_facts: List[Any] = []
+        self.draws_used = 0
 
         def i_choices(interp, guard, env, population, k=1):
             if not isinstance(population, str) or k != 5:
                 raise T.Untranslatable("random.choices shape")
+            # ``__draws__`` / ``__avail__``: ordinals of the stub calls made so far ON THIS PATH.  They are hidden path
+            # state of the interpreter (``__`` prefix): carried into inlined calls and back out (py2smt.eval_forking), so
+            # the 2nd call of _append_random_suffix reads the 2nd draw — exactly what the native stub _Random does.
             j = env.get("__draws__", 0)
             env["__draws__"] = j + 1
             if j >= len(self.hex):
                 raise T.Untranslatable("more draws than unrolled")
-            self.alphabets["choices"] = population
+            if self.alphabets.setdefault("choices", population) != population:
+                raise T.Untranslatable("random.choices called with different alphabets")
+            self.draws_used = max(self.draws_used, j + 1)
             return [be.from_chars([c]) for c in self.hex[j]]
 
         def i_choice(interp, guard, env, seq):
             if not isinstance(seq, str):
                 raise T.Untranslatable("random.choice shape")
-            j = env.get("__draws__", 1) - 1
-            self.alphabets["choice"] = seq
+            j = env.get("__draws__", 0) - 1
+            if j < 0:
+                raise T.Untranslatable("random.choice before any random.choices (stub ordinals undefined)")
+            if self.alphabets.setdefault("choice", seq) != seq:
+                raise T.Untranslatable("random.choice called with different alphabets")
             return be.from_chars([self.alpha[j]])
 
         def i_validate(interp, guard, env, candidate):
@@ -311,7 +355,7 @@ class _Enc:
             self.sanitiser_patterns.append((v.args[0].value, v.args[1].value))
         interp = T.Interp(be, functions={"_append_random_suffix": sfx},
                           intrinsics={"random.choices": i_choices, "random.choice": i_choice,
-                                      "validate_deployment_id": i_validate}, unroll=unroll)
+                                      "validate_deployment_id": i_validate}, unroll=unroll, merge=True)
         env0: Dict[str, Any] = {}
         for st in body[:head]:
             for g, kind, val, e in interp.stmt(st, env0, True):
@@ -330,11 +374,16 @@ class _Enc:
         facts.append(z3.Implies(self.n > 0, self.chars[0] != 45))
         facts.append(z3.And(*[z3.Implies(self.n == i + 1, self.chars[i] != 45) for i in range(SMAX)]))
         self.facts = facts
+        # the alphabets are the literals the CURRENT source passes to random.choices / random.choice (captured by the
+        # intrinsics above); a stub the source never calls stays unconstrained (it is never read)
+        if "choices" not in self.alphabets:
+            raise T.Untranslatable("the translated code never draws a random suffix (random.choices not reached)")
         for row in self.hex:
             for c in row:
-                self.stub_facts.append(in_alphabet(c, self.alphabets.get("choices", HEXD)))
-        for a in self.alpha:
-            self.stub_facts.append(in_alphabet(a, self.alphabets.get("choice", "abcdef")))
+                self.stub_facts.append(in_alphabet(c, self.alphabets["choices"]))
+        if "choice" in self.alphabets:
+            for a in self.alpha:
+                self.stub_facts.append(in_alphabet(a, self.alphabets["choice"]))
 
     def assumptions(self):
         return list(self.be.defs) + self.facts + self.stub_facts
@@ -413,39 +462,68 @@ def _native_derivation(w, unroll=None) -> bool:
     return True
 
 
-def _translation_validation(ctx, enc: "_Enc") -> None:
-    """evaluate the encoding on the repo's own test literals (and two boundary strings) with fixed draws, and compare
-    with the lifted real function run natively"""
-    names = []
-    for node in ast.walk(module_ast(TESTS)):
+def _test_literals() -> List[str]:
+    """first arguments of the find_deployment_id(...) calls of the repo's own test file (read by AST) + boundary strings"""
+    names: List[str] = []
+    try:
+        tree = module_ast(TESTS)
+    except OSError:
+        tree = ast.Module(body=[], type_ignores=[])
+    for node in ast.walk(tree):
         if isinstance(node, ast.Call) and isinstance(node.func, ast.Attribute) and node.func.attr == "find_deployment_id":
             if node.args and isinstance(node.args[0], ast.Constant) and isinstance(node.args[0].value, str):
                 if node.args[0].value not in names:
                     names.append(node.args[0].value)
-    names += ["9" * 70, "a" * 62 + "-b", ""]
+    for extra in ["9" * 70, "a" * 62 + "-b", "a" * 56 + "-bcdefgh", "", "7", "x"]:
+        if extra not in names:
+            names.append(extra)
+    return names
+
+
+# (force_suffix, answers of the availability checks): no retry / forced suffix + one retry (two draws: one before the
+# loop, one inside) / as many retries as the unrolled loop admits (the last unrolled iteration returns) / forced suffix
+# accepted at once
+_TV_RUNS = [(False, [True]), (True, [False, True]), (False, [False] * (UNROLL - 1) + [True]), (True, [True])]
+
+
+def _translation_validation(ctx, enc: "_Enc") -> None:
+    """evaluate the encoding on the repo's own test literals (and boundary strings) with fixed draws and availability
+    answers, and compare with the lifted real function run natively on the same name, draws and answers.  A mismatch
+    (``sat``) is reported by the runner as HARNESS-ERROR; the real sanitiser's output on the literal also has to satisfy
+    the sanitiser facts the queries assume (else the query is ``vacuous`` = not discharged)."""
     be = enc.be
-    for k, name in enumerate(names):
+    ncalls = enc.unroll + 1
+    for k, name in enumerate(_test_literals()):
         s = _TAIL(name.lower())
-        for force, avail0 in ((False, True), (True, False)):
-            hexes = ["7c0fe", "c0ffe", "0dead", "beef1", "12345"][: enc.unroll + 1]
-            alphas = ["e", "f", "a", "b", "c"][: enc.unroll + 1]
-            avail = [avail0] + [True] * enc.unroll
+        if len(s) > SMAX:
+            continue
+        for r, (force, answers) in enumerate(_TV_RUNS):
+            hexes = ["7c0fe", "c0ffe", "0dead", "beef1", "12345"][:ncalls]
+            alphas = ["e", "f", "a", "b", "c"][:ncalls]
+            avail = (answers + [True] * ncalls)[:ncalls]
             ns = _lifted(hexes, alphas, avail)
-            expected = drive(ns["find_deployment_id"](name, force))
+            try:
+                expected = drive(ns["find_deployment_id"](name, force))
+            except Exception as e:  # noqa: BLE001 - the real code raised: the encoding must not return a string there
+                expected = e
             fix = [enc.n == len(s), enc.force == force]
             fix += [enc.chars[i] == ord(c) for i, c in enumerate(s)]
-            for j in range(enc.unroll + 1):
+            for j in range(ncalls):
                 fix += [enc.hex[j][t] == ord(hexes[j][t]) for t in range(5)]
                 fix.append(enc.alpha[j] == ord(alphas[j]))
                 fix.append(enc.avail[j] == avail[j])
-            agree = []
-            for g, val in enc.returned():
-                same = z3.And(val.n == len(expected), *[val.at(i) == ord(c) for i, c in enumerate(expected)])
-                agree.append(z3.And(g, same))
-            ctx.check(f"translation_validation[{k},{int(force)}]", assumptions=list(be.defs) + fix,
-                      negated_property=z3.Not(z3.Or(*agree)), variables={"n": enc.n},
+            if isinstance(expected, str):
+                agree = []
+                for g, val in enc.returned():
+                    same = z3.And(val.n == len(expected), *[val.at(i) == ord(c) for i, c in enumerate(expected)])
+                    agree.append(z3.And(g, same))
+                agree_f = z3.And(z3.Or(*agree), *[z3.Not(b) for b in enc.bad_outcomes() + enc.unsafe()])
+            else:
+                agree_f = z3.Or(*(enc.bad_outcomes() + enc.unsafe()))
+            ctx.check(f"translation_validation[{k},{r}]", assumptions=list(be.defs) + enc.facts + fix,
+                      negated_property=z3.Not(agree_f), variables={"n": enc.n},
                       replay=lambda w: True, cross_check=False,
-                      note=f"encoding vs lifted real function on {name[:20]!r} force={force} avail0={avail0} -> {expected!r}")
+                      note=f"encoding vs lifted real function on {name[:20]!r} force={force} avail={answers} -> {expected!r}")
 
 
 @smt_obligation(quick=120, thorough=300,
